@@ -333,7 +333,7 @@ theorem mac_input_determines_content (V1 V2 : Verifier) (tbl : List AlgEntry) (s
   simp only [Option.some.injEq, Prod.mk.injEq] at hc1 hc2
   obtain ⟨rfl, _⟩ := hc1
   obtain ⟨rfl, _⟩ := hc2
-  obtain ⟨hs, hb, r⟩ := same_input_same_content V1 V2 tbl w1 w2 k now1 now2 rm ctx multi s1 s2 p1 p2 o1 o2 rd1 rd2
+  obtain ⟨hs, hb, _, r⟩ := same_input_same_content V1 V2 tbl w1 w2 k now1 now2 rm ctx multi s1 s2 p1 p2 o1 o2 rd1 rd2
     c1' c2' x1 x2 ho1 ho2 a1 a2 hd
   subst hs
   exact ⟨s1, a1.walk, a2.walk, hb, r⟩
